@@ -551,8 +551,19 @@ def eval_probe(cx: H11.Ctx, case: dict[str, Any], r: random.Random) -> None:
                 continue
             raw_after = math.exp(math.log(x)) if d.log else x
             m = int(cx.ask({"op": "tpeInt", "low": str(d.low), "high": str(d.high), "step": str(d.step), "s": K.rs(K.fbin(raw_after))}))
-            if m != v and not tie(raw_after, lo, float(d.step)):
+            slack = 0
+            if d.log:
+                # the code rounds np.exp(log x); the model gets math.exp(math.log(x)) as an exact rational. Both carry the error of
+                # exp o log (about |x| (|log x| + 2) eps): near a rounding boundary, or once that error reaches half a step (ranges
+                # around 1e15), neighbouring grid points are both correct roundings. Membership above is still exact.
+                err = abs(raw_after) * (abs(math.log(raw_after)) + 2.0) * 4.6e-16 / float(d.step)
+                kk = (raw_after - lo) / float(d.step)
+                if abs(abs(kk - math.floor(kk)) - 0.5) <= err or err >= 0.5:
+                    slack = (1 + int(math.ceil(err))) * d.step
+            if m != v and abs(m - v) > slack and not tie(raw_after, lo, float(d.step)):
                 cx.broke("projection", "TPE _untransform of %r for %r: code %r / model %r" % (x, d, v, m))
+            elif m != v:
+                cx.count("probe:tpe-int:rounding-boundary")
     # -- (d) GP get_unnormalized_param: raw normalised values ------------------------------------------------------
     step0 = 0.0 if d.step is None else float(d.step)
     scale = GS.ScaleType.LOG if d.log else GS.ScaleType.LINEAR
